@@ -323,7 +323,7 @@ Qed.
 Lemma keep_code_spec : forall l, keep_code l = keep_spec l.
 Proof.
   intros l. destruct l as [|x r]; [vm_compute; reflexivity|].
-  unfold keep_code, keep_gen, keep_spec.
+  unfold keep_code, keep_gen, keep_gen_of, keep_spec, keep_spec_of.
   unfold distinct_op, distinct_rhs, maj_op, max_maj_support, nan_op, nan_prop_support, nan_literal.
   rewrite !cmpQ_lt_frac by (cbn [length]; lia).
   fold nan_str.
@@ -346,7 +346,7 @@ Qed.
 Lemma keep_spec_iff : forall l, keep_spec l = true <->
   1 < distinct l /\ 5 * maxcount l < 4 * length l /\ 4 * count nan_str l < 3 * length l.
 Proof.
-  intros. unfold keep_spec. rewrite !andb_true_iff, !Nat.ltb_lt. tauto.
+  intros. unfold keep_spec, keep_spec_of. rewrite !andb_true_iff, !Nat.ltb_lt. tauto.
 Qed.
 
 Lemma keep_code_iff : forall l, keep_code l = true <->
